@@ -50,7 +50,8 @@ partial def loop {σ : Type} (h : IO.FS.Stream) (out : IO.FS.Stream) (step : σ 
     loop h out step s true
   else
     let (s', o) := step s l
+    let o := if o.startsWith "panic" then "panic" else o     -- panic messages are not compared
     out.putStrLn o
-    loop h out step s' (o.startsWith "panic" || o == "hang")
+    loop h out step s' (o == "panic" || o == "hang")
 
 end LiteFSVerif.Driver
